@@ -819,6 +819,8 @@ class Container:
             ratio = quantity_to_transfer / total_activity if total_activity else 0
         else:
             raise ValueError("Invalid quantity unit.")
+        # a request accepted as "everything there is" within the internal precision takes everything, never more
+        ratio = min(ratio, 1)
 
         if source_container.has_liquid():
             source_mass = None
